@@ -39,6 +39,8 @@ def width(f):
         return 16
     if k == "bwf32":
         return 32
+    if k == "bwint":
+        return 8 * f[1]
     if k == "struct":
         return sum(width(x) for x in f[1])
     if k == "array":
@@ -79,6 +81,12 @@ def mkfield(f, impl, nm):
         return C.Bytewise(C.Bytes(2))
     if k == "bwf32":
         return C.Bytewise(C.Float32b)
+    if k == "bwint":
+        # a byte-oriented integer island with every signed/swapped combination (through the public 24-bit names where they exist)
+        n, sg, sw = f[1], f[2], f[3]
+        if n == 3 and not (impl == "ctxwidth"):
+            return C.Bytewise({(False, False): C.Int24ub, (False, True): C.Int24ul, (True, False): C.Int24sb, (True, True): C.Int24sl}[(sg, sw)])
+        return C.Bytewise(C.BytesInteger(n, signed=sg, swapped=sw))
     if k == "struct":
         return C.Struct(*[("f%d" % i) / mkfield(x, impl, nm) for i, x in enumerate(f[1])])
     if k == "array":
@@ -92,6 +100,12 @@ def mkregion(layout, impl):
     s = C.Struct(*[("f%d" % i) / mkfield(x, impl, nm) for i, x in enumerate(layout)])
     if impl == "direct":
         d = C.Restreamed(s, bytes2bits, 1, bits2bytes, 8, lambda n: n // 8)
+    elif impl == "bitstruct-mixed":
+        # the BitStruct macro with the first members given positionally and the rest as keywords (declaration order must hold)
+        nm = Namer()
+        ms = [("f%d" % i, mkfield(x, "sized", nm)) for i, x in enumerate(layout)]
+        cut = (len(ms) + 1) // 2
+        d = C.BitStruct(*[n / c for n, c in ms[:cut]], **{n: c for n, c in ms[cut:]})
     else:
         d = C.Bitwise(s)
     return d, nm.kw
@@ -140,6 +154,9 @@ class Oracle:
                 return take(16).to_bytes(2, "big")
             if k == "bwf32":
                 return struct.unpack(">f", take(32).to_bytes(4, "big"))[0]
+            if k == "bwint":
+                raw = take(8 * f[1]).to_bytes(f[1], "big")
+                return int.from_bytes(raw, "little" if f[3] else "big", signed=f[2])
             if k == "struct":
                 return {"f%d" % i: dec(x) for i, x in enumerate(f[1])}
             if k == "array":
@@ -170,6 +187,8 @@ class Oracle:
                 put(int.from_bytes(v, "big"), 16)
             elif k == "bwf32":
                 put(int.from_bytes(struct.pack(">f", v), "big"), 32)
+            elif k == "bwint":
+                put(int.from_bytes(v.to_bytes(f[1], "little" if f[3] else "big", signed=f[2]), "big"), 8 * f[1])
             elif k == "struct":
                 for i, x in enumerate(f[1]):
                     enc(x, v["f%d" % i])
@@ -229,7 +248,7 @@ class LayoutRunner:
         self.cls = type(self.d).__name__
         ctx.count("region_class_" + self.cls)
         # a ctxwidth layout without any integer/bytes field has nothing context-dependent: statically sized
-        want = "Transformed" if impl == "sized" or (impl == "ctxwidth" and not self.kw) else "Restreamed"
+        want = "Transformed" if impl in ("sized", "bitstruct-mixed") or (impl == "ctxwidth" and not self.kw) else "Restreamed"
         self.failed = False
         if self.cls != want:
             ctx.violation("region-implementation-choice:" + impl, "layout built %s, expected %s" % (self.cls, want), self.case(b""))
@@ -335,7 +354,9 @@ def decorate(rng, parts, mode):
             elif w % 8 == 0 and r < 0.5:
                 out.append(["int", w, rng.random() < 0.5, True])
             elif w == 16 and r < 0.7:
-                out.append([rng.choice(["bw16", "bwbytes"])])
+                out.append(rng.choice([["bw16"], ["bwbytes"], ["bwint", 2, rng.random() < 0.5, rng.random() < 0.5]]))
+            elif w == 24 and r < 0.8:
+                out.append(["bwint", 3, rng.random() < 0.5, rng.random() < 0.5])
             elif w >= 4 and w % 2 == 0 and r < 0.8 and mode == "nest":
                 out.append(["array", 2, ["int", w // 2, rng.random() < 0.5, False]])
             elif w >= 3 and r < 0.9 and mode == "nest":
@@ -393,7 +414,7 @@ def run(ctx):
         layout = decorate(lrng, parts, mode)
         if not ctx.mine(i):
             continue
-        for impl in impls:
+        for impl in impls + (["bitstruct-mixed"] if len(layout) >= 2 and i % 2 == 0 else []):
             if impl == "direct" and i % 4:
                 continue
             lr = LayoutRunner(ctx, layout, impl)
@@ -403,6 +424,31 @@ def run(ctx):
             if crosses(layout):
                 ctx.nontrivial("layout", layout, impl)
         ctx.count("layouts8_exhaustive")
+    # ---- byte-oriented integer islands: every width 2..3 x signed x swapped, at aligned and unaligned bit positions, every implementation
+    k = 0
+    for n in (2, 3):
+        for sg, sw in itertools.product((False, True), repeat=2):
+            for lead in ([], [["int", 3, False, False], ["int", 5, True, False]], [["flag"], ["pad", 7], ["int", 8, False, True]]):
+                k += 1
+                if not ctx.mine(k):
+                    continue
+                layout = lead + [["bwint", n, sg, sw], ["int", 4, False, False], ["int", 4, True, False]]
+                for impl in impls + ["bitstruct-mixed"]:
+                    lr = LayoutRunner(ctx, layout, impl)
+                    for pat in boundary_patterns(lrng, layout, 60):
+                        lr.run(pat)
+                        if lr.failed:
+                            break
+                    ctx.nontrivial("island", layout, impl)
+                ctx.count("integer_island_layouts")
+    # ---- probes inside streamed regions (repetition / optional parts / alternatives that run out of bits part-way): reference model
+    from .c09 import bitprobe_recipes, case_bitprobe
+    for bi, br in enumerate(bitprobe_recipes()):
+        if not ctx.mine(bi):
+            continue
+        for data in [bytes([a]) for a in range(256)] + [bytes([a, b]) for a in range(0, 256, 5) for b in (0, 0x5a, 0xa5, 0xff)] + [bytes(rng.getrandbits(8) for _ in range(L)) for L in (3, 4, 5, 6) for _ in range(ctx.pick(10, 100))]:
+            case_bitprobe(ctx, {"kind": "bitprobe", "recipe": br, "data": tag(data)})
+        ctx.count("streamed_probe_recipes")
     # ---- 16-bit regions
     comps16 = list(compositions(16, 16))
     if ctx.index == 0:
@@ -441,7 +487,7 @@ def run(ctx):
             layout = decorate(srng, parts, srng.choice(["plain", "signed", "mixed", "nest"]))
         if sum(width(f) for f in layout) % 8:
             continue
-        for impl in impls:
+        for impl in impls + (["bitstruct-mixed"] if len(layout) >= 2 and j % 3 == 0 else []):
             if impl == "direct" and j % 5:
                 continue
             lr = LayoutRunner(ctx, layout, impl)
@@ -457,5 +503,8 @@ def run(ctx):
 
 
 def replay(ctx, case):
+    if case.get("kind") == "bitprobe":
+        from .c09 import case_bitprobe
+        return case_bitprobe(ctx, case)
     lr = LayoutRunner(ctx, case["layout"], case["impl"])
     lr.run(untag(case["pattern"]))
